@@ -314,6 +314,24 @@ def run(repo: Repo, chk: Check) -> None:
                                any(isinstance(x, App) and x.op == 'kw' and x.args[0] == 'signed' and x.args[1] is True for x in a)))
         chk.ob('R-DISPATCH', cq, flags == {('big', want)}, f'{prim} bytes: big-endian, {"signed" if want else "unsigned"}', fi.loc, {'found': sorted(map(str, flags))},
                what=f'{prim} on bytes must decode big-endian {"two\'s complement" if want else "unsigned"}')
+        # the bytes decoded are the operand's bytes as they are: stripping / slicing / padding them first changes the sign byte or the magnitude
+        srcs = []
+        for p in res:
+            for e in p.events:
+                if isinstance(e, tuple) and e[0] == 'from_value' and isinstance(e[2], App) and e[2].op == 'call:int.from_bytes' and e[2].args:
+                    srcs.append(e[2].args[0])
+
+        def transformed(x) -> bool:
+            if isinstance(x, App):
+                if x.op.startswith(('mcall:', 'm:')) or x.op in ('slice', 'cat', 'getitem') or x.op.startswith('op:'):
+                    return True
+                return any(transformed(a) for a in x.args)
+            return False
+
+        chk.ob('R-FLOW', cq, bool(srcs) and not any(transformed(x) for x in srcs), f'{prim} bytes: the operand bytes are decoded untransformed', fi.loc,
+               {'decoded_terms': [vrepr(x)[:120] for x in srcs]},
+               what=f'{prim} on bytes decodes {[vrepr(x)[:80] for x in srcs][:1]} instead of the operand itself: leading zero (sign) bytes or other parts of the operand are '
+                    'dropped before decoding (0x0080 must be 128, not -128)')
 
 
 def _accepts_nonneg(conds, sym: str, positive: bool) -> bool:
